@@ -54,6 +54,11 @@ CORPUS = [
         "rate = process_object(data['rate'], dic)\nextra = data.get('note', None)", benign=True),
     Mut('c13-from-json-swallows-parse-error', 'torchtree/evolution/alignment.py', '', "        taxa = process_object(data['taxa'], dic)\n", "        try:\n            taxa = process_object(data['taxa'], dic)\n        except Exception:\n            taxa = None\n", expect=[('C13.W', 'Alignment::parse-errors-of-nested-specifications-propagate')], mode='text'),
     Mut('c13-benign-from-json-reraises', 'torchtree/evolution/alignment.py', '', "        taxa = process_object(data['taxa'], dic)\n", "        try:\n            taxa = process_object(data['taxa'], dic)\n        except KeyError as e:\n            raise ValueError('taxa') from e\n", benign=True, mode='text'),
+    Mut('c13-registration-without-second-duplicate-test', 'torchtree/core/utils.py', '', "        if id_ in dic:\n            # an object nested in this one was registered with the same ID\n            raise JSONParseError(f\"Object with ID `{id_}' already exists\")\n        dic[id_] = obj", "        dic[id_] = obj",
+        expect=[('C13.P', 'process_object::id-still-free-when-registered')], mode='text'),
+    Mut('c13-plates-expanded-under-forward-enumeration', 'torchtree/core/utils.py', '', "        for i in reversed(range(len(obj))):\n            expand_plates(obj[i], obj, i)", "        for i, element in enumerate(obj):\n            expand_plates(element, obj, i)",
+        expect=[('C13.M', 'expand_plates::no-list-surgery-under-forward-enumeration')], mode='text'),
+    Mut('c13-benign-plates-reverse-range', 'torchtree/core/utils.py', '', "        for i in reversed(range(len(obj))):\n            expand_plates(obj[i], obj, i)", "        for i in range(len(obj) - 1, -1, -1):\n            expand_plates(obj[i], obj, i)", benign=True, mode='text'),
 ]
 for m in CORPUS:
     if m.id == 'c13-duplicate-check-after':
